@@ -34,8 +34,9 @@ Section SFProofs.
     match ps with
     | [] => Ok []
     | p :: r => match uf p with
-                | Ok v => match mapM_res r with Ok vs => Ok (v :: vs) | Raise e => Raise e end
+                | Ok v => match mapM_res r with Ok vs => Ok (v :: vs) | Raise e => Raise e | OutOfFuel => OutOfFuel end
                 | Raise e => Raise e
+                | OutOfFuel => OutOfFuel
                 end
     end.
 
@@ -44,8 +45,9 @@ Section SFProofs.
   Definition grad_of (p : P) : res G :=
     if fdmode then
       match uf p with
-      | Ok v => match mapM_res (stencil p) with Ok vs => fdest p v vs | Raise e => Raise e end
+      | Ok v => match mapM_res (stencil p) with Ok vs => fdest p v vs | Raise e => Raise e | OutOfFuel => OutOfFuel end
       | Raise e => Raise e
+      | OutOfFuel => OutOfFuel
       end
     else ug p.
 
@@ -115,7 +117,7 @@ Section SFProofs.
     - unfold ret. intros H; inversion H; subst. rewrite E.
       repeat split; auto; try (cbn; lia); try (intros ? ? []).
       intros v0 H0. rewrite E in H0. auto.
-    - unfold bind, SF.call_f, call, ret. destruct (uf (sx _ _ _ _ t)) as [w|e] eqn:Eu; [|discriminate].
+    - unfold bind, SF.call_f, call, ret. destruct (uf (sx _ _ _ _ t)) as [w|e|] eqn:Eu; [|discriminate|discriminate].
       intros H; inversion H; subst; cbn. repeat split; auto; try lia.
       + intros v0 H0; inversion H0; subst; auto.
       + intros q r [H0|[]]. inversion H0; auto.
@@ -154,7 +156,7 @@ Section SFProofs.
         destruct (update_fun_spec _ _ _ _ HI H1) as (Hu & HI2 & Hx & Hs & Hsg & Hn & Hng & Hcg & Hsc & _ & _).
         apply bind_ok_inv in H2 as (vs & tr3 & tr4 & H3 & H4 & ->).
         destruct (eval_stencil_spec _ _ _ H3) as (Hm & Hc & Hcg3 & Hl).
-        destruct (fdest (sx _ _ _ _ t2) v vs) as [g0|e] eqn:Ed; [|discriminate].
+        destruct (fdest (sx _ _ _ _ t2) v vs) as [g0|e|] eqn:Ed; [|discriminate|discriminate].
         unfold ret in H4. inversion H4; subst; cbn.
         assert (Hgo : grad_of (sx _ _ _ _ t) = Ok g).
         { unfold grad_of. rewrite Em, Hu. rewrite Hx in Hm, Ed. rewrite Hm. exact Ed. }
